@@ -619,6 +619,11 @@ class Check:
         lines = []
         for key, vs in sorted(bykey.items()):
             v = vs[0]
+            if key.split(':')[1:2] == ['harness']:
+                # the harness's own generator or model left its population: nothing about the library was decided (exit 2, not a violation)
+                self.inconclusive.append('harness failure %s at case %s: %s' % (key, v.get('case'), (v.get('detail') or '')[:300]))
+                lines.append('INCONCLUSIVE: property=%s harness failure %s (case %s)' % (prop, key, v.get('case')))
+                continue
             if key in known_keys:
                 known_hit.append(key)
                 lines.append('KNOWN-FINDING: property=%s %s -- %s (%d occurrences this run)' % (prop, key, known_keys[key].get('witness', ''), len(vs)))
